@@ -47,7 +47,8 @@ def main():
     rng = random.Random(vlib.seed())
     vlib.build_harness()
     entries = [e for e in pe.catalogue() if e["class"] in ("indicator", "strategy", "compound")]
-    cases = pe.build_cases(entries, tier, [0], rng, max_alt=1 if tier == "quick" else 3)
+    cases = pe.build_cases(entries, tier, [0], rng, max_alt=1 if tier == "quick" else 3,
+                           max_alt_multi=2 if tier == "quick" else 4)
     V = vlib.Verdicts(PID)
     machinery = []
     reqs = []
